@@ -223,10 +223,26 @@ func sortedKeys[V any](m map[string]V) []string {
 	return ks
 }
 
-func loadLive(spec *ModelSpec) *liveModel {
+func loadLive(spec *ModelSpec, shared map[uint64]*onnx.ModelProto) *liveModel {
 	lm := &liveModel{spec: spec}
 	var m *gonnx.Model
-	kind, msg := guardRun(func() (err error) { m, err = gonnx.NewModelFromBytes(spec.Bytes); return })
+	kind, msg := guardRun(func() (err error) {
+		if !spec.ShareProto {
+			m, err = gonnx.NewModelFromBytes(spec.Bytes)
+			return err
+		}
+		h := fnv.New64a()
+		h.Write(spec.Bytes)
+		mp := shared[h.Sum64()]
+		if mp == nil {
+			if mp, err = gonnx.ModelProtoFromBytes(spec.Bytes); err != nil {
+				return err
+			}
+			shared[h.Sum64()] = mp
+		}
+		m, err = gonnx.NewModel(mp)
+		return err
+	})
 	if kind != "ok" {
 		lm.loadErr = kind + ": " + msg
 		return lm
@@ -418,8 +434,9 @@ type worldRun struct {
 // execute runs the case. pol == nil: serial execution following c.Order (or tasks in order).
 func execute(c *Case, pol policy, attrib bool, checkState bool) *worldRun {
 	x := &executor{c: c, attrib: attrib, checkState: checkState}
+	sharedMP := map[uint64]*onnx.ModelProto{}
 	for i := range c.World.Models {
-		lm := loadLive(&c.World.Models[i])
+		lm := loadLive(&c.World.Models[i], sharedMP)
 		if lm.m != nil {
 			orig := lm.m.GetOperator
 			lm.m.GetOperator = x.wrapGetter(orig, x.cur)
